@@ -49,6 +49,20 @@ DomainOf(v) == LET c == Chain(v) idx == {i \in 1..Len(c) : c[i].ty = "withDomain
                IF idx = {} THEN <<"L_NoDomain">>
                ELSE c[CHOOSE i \in idx : \A j \in idx : i <= j].s
 
+NamedDomain(n) == <<"L_domain", "QT">> \o n \o <<"QT">>
+\* domains.NotInDomain against three fixed domains: none, "w1", "w2"
+ProbeDomains == <<<<"L_NoDomain">>, NamedDomain(<<"w1">>), NamedDomain(<<"w2">>)>>
+NotIn(v) == [i \in 1..Len(ProbeDomains) |-> DomainOf(v) # ProbeDomains[i]]
+
+\* markers.HasInterface(err, (*interface{ ErrorHint() string })(nil)): some layer of
+\* the single-cause chain has the method
+HinterTy == {"withHint", "withIssueLink", "unimplementedError", "withAssertionFailure"}
+HasHinter(v) == \E i \in 1..Len(Chain(v)) : Chain(v)[i].ty \in HinterTy
+\* markers.If with a predicate returning the detail of a layer that has ErrorDetail():
+\* the outermost such layer answers (<<>> = no layer does)
+IfDetail(v) == LET c == Chain(v) idx == {i \in 1..Len(c) : c[i].ty = "withDetail"} IN
+               IF idx = {} THEN <<>> ELSE <<c[CHOOSE i \in idx : \A j \in idx : i <= j].s>>
+
 HasTy(v, ty) == \E i \in 1..Len(Chain(v)) : Chain(v)[i].ty = ty
 HasAssertionFailure(v) == HasTy(v, "withAssertionFailure")
 HasIssueLink(v) == HasTy(v, "withIssueLink")
@@ -74,5 +88,6 @@ Acc(v) ==
    hasAssert |-> HasAssertionFailure(v), isAssert |-> IsAssertionFailure(v),
    hasLink |-> HasIssueLink(v), isLink |-> IsIssueLink(v),
    hasUnimpl |-> HasUnimplemented(v), isUnimpl |-> IsUnimplemented(v),
-   http |-> CodeOf(v, "withHTTPCode"), grpc |-> CodeOf(v, "withGrpcCode"), hastype |-> HasTypes(v)]
+   http |-> CodeOf(v, "withHTTPCode"), grpc |-> CodeOf(v, "withGrpcCode"), hastype |-> HasTypes(v),
+   notin |-> NotIn(v), hasHinter |-> HasHinter(v), ifDetail |-> IfDetail(v)]
 =============================================================================
